@@ -15,7 +15,7 @@ CRASH = ("asan", "ubsan", "abort", "signal", "sanitizer", "truncated", "exit")
 ENFORCED = {
     "C12": ("seq", "parse-stable", "open-stable", "input-intact", "hang", "baseline") + CRASH,
     "C13": ("scon", "scon-live", "leak", "fd-leak", "fd-discipline") + CRASH,
-    "C14": ("contract", "hang-parse") + CRASH,
+    "C14": ("contract", "hang-parse", "must-fail") + CRASH,
     "C19": ("cli",) + CRASH,
 }
 
@@ -222,6 +222,12 @@ def simulate(z, plan, profile=None):
     """One run = the history in a fresh child + the baselines it needs."""
     profile = profile or plan["profile"]
     out = Outcome()
+    if plan.get("knobs", {}).get("plain_only") and "/asan/" in z.exe:
+        # inputs too deep for the sanitized build to get through in reasonable
+        # time: production-like build only
+        if z.plain is None:
+            z.run_plain({"profile": profile, "knobs": {}, "files": [], "progs": [], "steps": []})
+        z = z.plain
     resp = z.run(plan)
     out.resp = resp
     if resp.exit == -2:
@@ -289,6 +295,27 @@ def simulate(z, plan, profile=None):
         else:
             v2.klass_str = v2.oracle
             viol = v2
+    if viol is None and profile == "C14" and "/asan/" in z.exe \
+            and any(len(p["text"]) > 1500 for p in plan["progs"]):
+        # Deep or long inputs: also on the production-like build with the
+        # default 8 MiB stack (unbounded recursion overflows there first).
+        r2 = z.run_plain(plan)
+        c2 = classify(r2, last_op_of(plan, r2))
+        if c2 is not None and c2[0] in CRASH + ("hang-parse",):
+            viol = O.Violation(c2[0], "non-sanitized build, default stack: " + c2[2], plan, step=len(r2.events))
+            viol.klass_str = "plain:" + c2[1]
+    if viol is None and "must-fail" in enforced:
+        for ev in resp.events:
+            if ev.idx < len(plan["steps"]):
+                exp = plan["steps"][ev.idx].get("expect")
+                if exp and ev.outcome not in (exp, "skip"):
+                    prog = "?"
+                    viol = O.Violation("must-fail",
+                                       "step %d %s %s: this pull must be '%s' (the failure is certain by construction), got '%s' %s"
+                                       % (ev.idx, ev.op, " ".join(ev.args), exp, ev.outcome,
+                                          ev.text("msg") or ev.text("r") or ""), plan, step=ev.idx)
+                    viol.klass_str = "must-fail:%s-instead-of-%s" % (ev.outcome, exp)
+                    break
     out.violation = viol
     out.fp = fingerprint(resp, viol.klass_str if viol else "")
     return out
